@@ -42,6 +42,7 @@ def gen_cases(tier, seed):
             for lo in range(0, len(cat[tt]), 2):
                 yield ('P', i, lo, lo + 2)
     yield ('P3',)
+    yield ('S32',)
     for lo in range(9):
         yield ('PS', lo, lo + 1)
     for si in range(3):
@@ -116,6 +117,8 @@ def run_case(case):
         part_p3(r, case)
     elif case[0] == 'PS':
         part_ps(r, case)
+    elif case[0] == 'S32':
+        part_s32(r, case)
     elif case[0] == 'M':
         part_m(case[1], case[2], r, case)
     elif case[0] == 'S1':
@@ -222,6 +225,57 @@ def part_p(i, r, case, lo=0, hi=None):
                         r.bad('not-least-solution', 'indices.PatternedTensor.solve', sem, '%s: A=%s (%s) b=%s: patterned solve %r, dense semiring solve %r' % (sem, P.show(pa), scale, P.show(pb), x.tolist(), want.tolist()), ('P', i), key)
                     else:
                         r.ok(key, outcome=(sem, scale), nontrivial=True)
+
+
+def part_s32(r, case):
+    """Single precision, nearly critical systems (cycle weight 1 - 2^-k, k = 6..22) in the Real and Log semirings, 1x1
+    and as a 2-cycle, through Semiring.solve, PatternedTensor.solve and multi_solve: the pivot is within 1e-7..1e-2 of
+    the semiring one, where star() must not lose its digits.  Oracle: the float32 inputs themselves, read back in
+    50-digit arithmetic."""
+    import torch, mpmath
+    from fggs.indices import PatternedTensor
+    from fggs.multi import MultiTensor, multi_solve
+    mp = mpmath.mp.clone() if hasattr(mpmath.mp, 'clone') else mpmath.mp
+    mp.dps = 50
+    for k in range(6, 23):
+        a = 1.0 - 2.0 ** -k
+        for sem in ('real', 'log'):
+            S = IR.semiring(sem, 'float32')
+            e = (lambda v: torch.tensor(v, dtype=torch.float32)) if sem == 'real' else (lambda v: torch.tensor(v, dtype=torch.float64).log().to(torch.float32))
+            for shape in ('1x1', '2-cycle'):
+                key = (case, k, sem, shape)
+                try:
+                    if shape == '1x1':
+                        A, b = e([[a]]), e([0.75])
+                    else:
+                        A, b = e([[0., a], [1., 0.]]), e([0.75, 0.5])
+                    dec = (lambda t: mp.matrix([[mp.mpf(float(x)) for x in row] for row in t.tolist()])) if sem == 'real' else \
+                          (lambda t: mp.matrix([[mp.exp(mp.mpf(float(x))) if x != -inf else mp.mpf(0) for x in row] for row in t.tolist()]))
+                    Am = dec(A)
+                    bm = dec(b.unsqueeze(1))
+                    n = A.shape[0]
+                    xm = mp.lu_solve(mp.eye(n) - Am, bm)
+                    want = [float(xm[i]) if sem == 'real' else float(mp.log(xm[i])) for i in range(n)]
+                    results = {'Semiring.solve': S.solve(A.clone(), b.clone()).tolist(),
+                               'PatternedTensor.solve': PatternedTensor(A.clone(), default=S.from_int(0).item()).solve(PatternedTensor(b.clone(), default=S.from_int(0).item()), S).to_dense().tolist()}
+                    sh = {'x': torch.Size([n])}
+                    Mm, Bm = MultiTensor((sh, sh), S), MultiTensor(sh, S)
+                    Mm['x', 'x'] = PatternedTensor(A.clone(), default=S.from_int(0).item())
+                    Bm['x'] = PatternedTensor(b.clone(), default=S.from_int(0).item())
+                    results['multi_solve'] = multi_solve(Mm, Bm)['x'].to_dense().tolist()
+                except Exception as ex:
+                    r.exc(ex, sem + '/float32', case, key)
+                    continue
+                badfn = None
+                for fn, got in results.items():
+                    for g, w_ in zip(got, want):
+                        tol = 1e-4 * abs(w_) if sem == 'real' else 1e-4      # the oracle solves the float32 system itself, so only the solver's own rounding remains
+                        if not (abs(g - w_) <= tol):
+                            badfn = (fn, got)
+                if badfn:
+                    r.bad('not-least-solution', 'semirings.' + type(S).__name__ + '.solve', sem + '/float32-near-critical', '%s float32 %s with cycle weight 1-2^-%d: %s gives %r, the solution of the float32 system is %r' % (sem, shape, k, badfn[0], badfn[1], want), case, key)
+                else:
+                    r.ok(key, outcome=(sem, 'float32-near-critical'), nontrivial=True)
 
 
 def part_ps(r, case):
